@@ -32,7 +32,7 @@ m = dict(
     checks=[CHECKS[k] for k in sorted(CHECKS)],
     notes="exit 0 = held on everything explored; 1 = VIOLATION (replayed against the unpatched library); 2 = inconclusive / harness error (never success). "
           "No source hooks: hooks.source_commits is empty. Unguarded 'fix:' commits in /repo (genuine defects repaired, see known_findings.json 'fixed'): "
-          "626e076, 72e75ad, 8a47948, ee89c5b, 80e896c, 91252f1, 0da08be, eff407b, 9489106, 8d60d8c, da7e02f, 6a6785e, 85d378c, 5fbfc44, 20fefd3, db50f89, b678f52, d08d915, 25f6d39, 4677ab0, c90e0b6, 269da67, bce5945, 1f81b16, 92d17d5, ae8a646, 0c14e61, 7b71b86, b46e25c, 230fafc, 9fea52e, 2a1095f, 65bf058, e5b2dc6, 9f8d1de. Open known findings (printed as KNOWN-FINDING, exit 0): see known_findings.json 'findings'.",
+          "626e076, 72e75ad, 8a47948, ee89c5b, 80e896c, 91252f1, 0da08be, eff407b, 9489106, 8d60d8c, da7e02f, 6a6785e, 85d378c, 5fbfc44, 20fefd3, db50f89, b678f52, d08d915, 25f6d39, 4677ab0, c90e0b6, 269da67, bce5945, 1f81b16, 92d17d5, ae8a646, 0c14e61, 7b71b86, b46e25c, 230fafc, 9fea52e, 2a1095f, 65bf058, e5b2dc6, 9f8d1de, 1c950b4. Open known findings (printed as KNOWN-FINDING, exit 0): see known_findings.json 'findings'.",
     not_applicable=[dict(property_id=p, reason=NA_REASON.get(p, "check not built yet in this session (planned, see DESIGN §3)")) for p in ALL if p not in CHECKS],
 )
 json.dump(m, open(os.path.join(HERE, "MANIFEST.json"), "w"), indent=1)
